@@ -100,23 +100,25 @@ theorem freeze_keeps_earlier_entries (look : String → Option V) (s s' : FState
 
 /-! ## a. frozen code is closed: re-freezing it is the identity and resolves nothing -/
 
-/-- `freezeParams` rewrites the defaults only -/
+/-- `freezeParams` rewrites the annotations and the defaults only -/
 theorem freezeParams_names (look : String → Option V) (ps : List Param) :
     ∀ (s : FState V) ps' s', freezeParams look s ps = .ok (ps', s') → ps'.map Param.name = ps.map Param.name := by
   induction ps with
   | nil => intro s ps' s' h; simp only [freezeParams, Except.ok.injEq, Prod.mk.injEq] at h; rw [← h.1]
   | cons p rest ih =>
     intro s ps' s' h
-    obtain ⟨nm, d, sp⟩ := p
+    obtain ⟨nm, d, sp, a⟩ := p
     simp only [freezeParams] at h
     split at h
     · exact absurd h (by simp)
     · split at h
       · exact absurd h (by simp)
-      · rename_i heq
-        simp only [Except.ok.injEq, Prod.mk.injEq] at h
-        rw [← h.1]
-        simp only [List.map_cons, Param.name, ih _ _ _ heq]
+      · split at h
+        · exact absurd h (by simp)
+        · rename_i heq
+          simp only [Except.ok.injEq, Prod.mk.injEq] at h
+          rw [← h.1]
+          simp only [List.map_cons, Param.name, ih _ _ _ heq]
 
 theorem closed_all (look : String → Option V) (look' : String → Option V') :
     (∀ s e, ∀ e' s', freezeExpr look s e = .ok (e', s') → 
@@ -264,7 +266,7 @@ mutual
     | bd, .iter _ p e :: rest => afterIts (afterExpr bd e ++ Pat.idents p) rest
   def afterParams : List String → List Param → List String
     | bd, [] => bd
-    | bd, .mk _ d _ :: rest => afterParams (afterOpt bd d) rest
+    | bd, .mk _ d _ a :: rest => afterParams (afterOpt (afterOpt bd a) d) rest
   def afterBody : List String → ForBody → List String
     | bd, .exec e => afterExpr bd e
     | bd, .yield e into => afterOpt (afterExpr bd e) into
@@ -319,9 +321,12 @@ mutual
     | _, [] => false
     | bd, .guard g :: rest => stuckExpr look bd g || stuckIts look (afterExpr bd g) rest
     | bd, .iter _ p e :: rest => stuckExpr look bd e || stuckIts look (afterExpr bd e ++ Pat.idents p) rest
+  /-- per parameter: its type annotation, then its default -/
   def stuckParams (look : String → Option V) : List String → List Param → Bool
     | _, [] => false
-    | bd, .mk _ d _ :: rest => stuckOpt look bd d || stuckParams look (afterOpt bd d) rest
+    | bd, .mk _ d _ a :: rest =>
+      stuckOpt look bd a || stuckOpt look (afterOpt bd a) d ||
+        stuckParams look (afterOpt (afterOpt bd a) d) rest
   def stuckBody (look : String → Option V) : List String → ForBody → Bool
     | bd, .exec e => stuckExpr look bd e
     | bd, .yield e into => stuckExpr look bd e || stuckOpt look (afterExpr bd e) into
@@ -501,12 +506,12 @@ def lookO : String → Option Int := fun x => if x = "o" then some 5 else none
 
 /-- `\a -> (b := a + o; b)` -/
 def lamOk : Expr :=
-  .lambda [.mk "a" none false]
+  .lambda [.mk "a" none false none]
     (.seq [.declare (.ident "b") (.op "+" (.ident "a") (.ident "o")), .ident "b"] false)
 
 /-- its frozen form: `o` is replaced by table entry 0 -/
 def lamOkFrozen : Expr :=
-  .lambda [.mk "a" none false]
+  .lambda [.mk "a" none false none]
     (.seq [.declare (.ident "b") (.op "+" (.ident "a") (.frozen 0)), .ident "b"] false)
 
 example : freezeExpr lookO ⟨[], []⟩ lamOk = .ok (lamOkFrozen, ⟨[], [5]⟩) := by
@@ -531,6 +536,26 @@ example : Stuck lookO [] (.seq [.while_ (.int 0) (.declare (.ident "q") (.int 1)
 /-- …and a `for` clause resolves its iteratee before binding its own names -/
 example : Stuck lookO [] (.for_ [.iter .normal (.ident "x") (.ident "x")] (.exec .null)) := by decide
 example : ¬ Stuck lookO [] (.for_ [.iter .normal (.ident "x") (.ident "o")] (.exec (.ident "x"))) := by decide
+
+/-- parameter type annotations are walked too: an unknown name in an annotation makes the freeze fail,
+a known one does not; the parameters themselves count as bound there (as in the code, although the
+annotation is evaluated before they are bound) -/
+example : Stuck lookO [] (.lambda [.mk "x" none false (some (.ident "zz"))] (.ident "x")) := by decide
+example : ¬ Stuck lookO [] (.lambda [.mk "x" none false (some (.ident "o"))] (.ident "x")) := by decide
+example : ¬ Stuck lookO [] (.lambda [.mk "x" none false (some (.ident "x"))] (.ident "x")) := by decide
+/-- …per parameter the annotation comes before the default, and both before the body -/
+example : Stuck lookO [] (.lambda [.mk "x" (some (.ident "o")) false (some (.ident "zz"))] (.ident "x")) := by decide
+example : Stuck lookO [] (.lambda [.mk "x" (some (.ident "zz")) false (some (.ident "o"))] (.ident "x")) := by decide
+/-- the frozen annotation is a table reference, and the result is closed -/
+example : freezeExpr lookO ⟨[], []⟩ (.lambda [.mk "x" (some (.ident "o")) false (some (.ident "o"))] (.ident "x")) =
+    .ok (.lambda [.mk "x" (some (.frozen 1)) false (some (.frozen 0))] (.ident "x"), ⟨[], [5, 5]⟩) := by
+  simp [freezeExpr, freezeParams, freezeOpt, lookO, Param.name]
+example : freezeExpr (fun _ => (none : Option Empty)) ⟨[], []⟩
+      (.lambda [.mk "x" (some (.frozen 1)) false (some (.frozen 0))] (.ident "x")) =
+    .ok (.lambda [.mk "x" (some (.frozen 1)) false (some (.frozen 0))] (.ident "x"), ⟨[], []⟩) :=
+  freeze_closed lookO _ ⟨[], []⟩ ⟨[], [5, 5]⟩
+    (.lambda [.mk "x" (some (.ident "o")) false (some (.ident "o"))] (.ident "x")) _
+    (by simp [freezeExpr, freezeParams, freezeOpt, lookO, Param.name]) []
 
 /-- `switch`: a name bound by one arm's pattern is not visible in the next arm, nor after the `switch`;
 inside its own arm it is -/
